@@ -77,6 +77,18 @@ def build(S: dict, vname: list, nname: list) -> Built:
     for v in range(nv):
         if (v + 1) not in init_ids:
             values[v].name = _nm(vname[v])
+    # registering an initializer again under its own name changes nothing (alternating over the instances:
+    # item assignment / register_initializer / add)
+    how = (nv + nn + len(graphs)) % 4
+    if how:
+        for g in graphs:
+            for key, val in list(g.initializers.items()):
+                if how == 1:
+                    g.initializers[key] = val
+                elif how == 2:
+                    g.register_initializer(val)
+                else:
+                    g.initializers.add(val)
     for n in range(nn):
         nodes[n].name = _nm(nname[n])
     b.values, b.nodes, b.graphs = values, nodes, graphs
